@@ -24,6 +24,8 @@
      S6  one Deferred with n callbacks, callback i returns an already-fired Deferred.
      G1/G2  inlineCallbacks generator / coroutine awaiting n already-fired Deferreds.
      G3/G4  the same awaiting n already-failed Deferreds (caught each time).
+     G5/G6  generator / coroutine awaiting n already-fired Deferreds of rotating kinds: Deferred,
+            DeferredList([..]), gatherResults([..]), a trivial user subclass of Deferred.
    cfg.kind: how the chain ends ("ok": link_n returns n+1; "err": link_n raises E1).
    cfg.extra (S1..S4, S1E): links that carry more callbacks than link + probe --
      "pre"   a pass-through callback pre_i added to d_i BEFORE its link;
@@ -46,7 +48,7 @@ vars == <<cfg, n, pos, base, runs, last>>
 Whos == {"link", "own", "res", "gen", "pre", "late"}
 Cascade == {"S1", "S3", "S1E"}
 Stepwise == {"S2", "S4"}
-Gens == {"G1", "G2", "G3", "G4"}
+Gens == {"G1", "G2", "G3", "G4", "G5", "G6"}
 Shapes == Cascade \cup Stepwise \cup {"S6"} \cup Gens
 
 Final(c, m) == IF c.shape = "S1E" \/ c.kind = "err" THEN <<"err", 1>> ELSE <<"ok", m + 1>>
@@ -81,7 +83,7 @@ Exp(c, m, j) ==
               ELSE IF r = P(c) + 2 THEN <<"own", i, Final(c, m)>>
               ELSE <<"late", i + 1, PyNone>>
       [] c.shape = "S6" -> <<"link", j, <<"ok", j - 1>> >>
-      [] c.shape \in {"G1", "G2"} -> <<"gen", j, <<"ok", j>> >>
+      [] c.shape \in {"G1", "G2", "G5", "G6"} -> <<"gen", j, <<"ok", j>> >>
       [] c.shape \in {"G3", "G4"} -> <<"gen", j, <<"err", 1>> >>
 
 \* what the outermost Deferred finally holds
